@@ -514,7 +514,11 @@ def run(ctx):
         if rc != 0 or not m:
             corr_broken = ("WAL correspondence could not be evaluated", out[-2500:])
             break
-        for a, b in re.findall(r"\((\d+)\s*,\s*(\d+)\)", m.group(1)):
+        found = re.findall(r"\((\d+)(?:%nat)?\s*,\s*(\d+)(?:%nat)?\)", m.group(1))
+        if not found and m.group(1) not in ("[]", "nil"):
+            corr_broken = ("could not parse the list of disagreeing WAL histories", m.group(1)[:300])
+            break
+        for a, b in found:
             bad_w.append((s + int(a), int(b)))
     if bad_w and not corr_broken:
         allg = corpus + gens
